@@ -194,7 +194,7 @@ def results(sl):
                 if metric == "service_time" and i < sl.get("failures", 0) and stype == "normal":
                     ok = False
                 st.docs.append(_doc(metric, "t1", stype, v, ok, "bulk", rel=fresh_real("rel_%s_%s%d" % (metric[:3], stype[0], i), 0)
-                                    if metric == "service_time" and i == 0 else i))
+                                    if metric == "service_time" and i == 0 and (n <= 20 or stype == "normal") else i))
     thr_w = [fresh_real("thr_w%d" % i, 0) for i in range(sl.get("thr_w", 1))]
     thr_n = [fresh_real("thr_n%d" % i, 0) for i in range(sl.get("thr_n", 2))]
     for v in thr_w:
